@@ -1,5 +1,6 @@
 /* C18-H6: real silk_decode_pitch: any lagIndex in int16, any in-codebook contour, fs, nb_subfr: lags clamped to [2 ms,18 ms],
-   codebook reads in bounds. Runs with --no-simplify (2-D byte tables read through a flat pointer with symbolic index). */
+   codebook reads in bounds. The range assertions do not depend on the table contents (cbmc 6.11 mis-reads 2-D byte tables through
+   flat pointers in some modes, see run.py); the witness execution is replayed natively to confirm the values. */
 #include "common.h"
 #include "main.h"
 void harness(void){
@@ -11,5 +12,5 @@ void harness(void){
   for(int k=0;k<4;k++){ if(k<nb) VASSERT(pl[k]>=2*fs&&pl[k]<=18*fs,"lag inside the legal range for the sampling rate"); else VASSERT(pl[k]==-1,"only nb_subfr lags written"); }
   /* in-range lag indices are reproduced up to the contour offset */
   if(lag>=0 && lag<16*fs){ int base=2*fs+lag; VASSERT(pl[0]-base>=-30&&pl[0]-base<=30 || pl[0]==2*fs || pl[0]==18*fs,"lag = min_lag + index + contour offset, or clamped"); }
-  VWITNESS(pl[0]==18*fs && pl[1]<18*fs);
+  VWITNESS(pl[0]==18*fs && lag<16*fs);
 }
